@@ -304,3 +304,110 @@ class _:
             exp_r, exp_c = case["r"], [m for m in range(N) if m not in case["r"]]
         if list(rr) != exp_r or list(cc) != exp_c:
             raise Fail("gather_wrap_dims", f"{case} -> {list(rr)}, {list(cc)}")
+
+
+@check("c17.index_dtypes", ["C17", "C07", "C06", "C03", "C04"], [
+    "pyttb.pyttb_utils.tt_sub2ind", "pyttb.pyttb_utils.tt_ind2sub", "pyttb.pyttb_utils.tt_ismember_rows",
+    "pyttb.pyttb_utils.tt_intersect_rows", "pyttb.pyttb_utils.tt_setdiff_rows", "pyttb.sptensor.sptensor.reshape",
+    "pyttb.sptensor.sptensor.__eq__", "pyttb.sptensor.sptensor.__ne__"])
+class _:
+    """Subscripts held in integer types other than the platform integer (int8 ... uint32, as imported from other
+    libraries): the index maps must not wrap around when the linear index exceeds the range of the subscript type,
+    rows must compare by value, and sparse operations must give the result they give for int64 subscripts."""
+
+    def cases(self, tier, rng):
+        for dt, shp in (("int8", (20, 20)), ("uint8", (30, 40)), ("int16", (200, 300)), ("int16", (40, 50, 60)),
+                        ("int32", (70000, 70000)), ("uint16", (300, 400)), ("int32", (3, 4)), ("uint32", (5, 3, 2))):
+            for order in ("F", "C"):
+                yield dict(kind="index-maps", dtype=dt, shape=list(shp), order=order, seed=rng.randrange(10**6))
+        for dt in ("int8", "int16", "int32", "uint8", "uint32"):
+            yield dict(kind="rows", dtype=dt, seed=rng.randrange(10**6))
+            for shp in ((3, 4), (2, 3, 2), (12, 11)):
+                yield dict(kind="sparse-ops", dtype=dt, shape=list(shp), seed=rng.randrange(10**6))
+        for dt, shp, tgt in (("int16", (200, 300), (300, 200)), ("int8", (20, 20), (400,)), ("int16", (40, 50, 60), (2000, 60)), ("int32", (6, 4), (4, 6))):
+            yield dict(kind="reshape", dtype=dt, shape=list(shp), target=list(tgt), seed=rng.randrange(10**6))
+
+    def classify(self, case):
+        return f"{case['kind']}:{case['dtype']}"
+
+    def run(self, case):
+        ttb = import_pyttb()
+        from pyttb.pyttb_utils import tt_ind2sub, tt_intersect_rows, tt_ismember_rows, tt_setdiff_rows, tt_sub2ind
+        rs = np.random.RandomState(case["seed"])
+        dt = np.dtype(case["dtype"])
+        if case["kind"] == "index-maps":
+            shp = tuple(case["shape"])
+            k = 40
+            subs64 = np.stack([rs.randint(0, d, size=k) for d in shp], axis=1)
+            subs64[0] = [d - 1 for d in shp]           # the last cell: the largest linear index
+            subs = subs64.astype(dt)
+            if not np.array_equal(subs.astype(np.int64), subs64):
+                raise Fail("harness", "subscripts do not fit the type")
+            lin = np.asarray(tt_sub2ind(shp, subs, order=case["order"]))
+            strides = np.cumprod((1,) + shp[:-1]) if case["order"] == "F" else np.cumprod((1,) + shp[::-1][:-1])[::-1]
+            exp = (subs64 * strides.astype(np.int64)).sum(axis=1)
+            if not np.array_equal(lin.astype(np.int64), exp) or lin.dtype.kind not in "iu":
+                bad = int(np.flatnonzero(lin.astype(np.int64) != exp)[0]) if lin.shape == exp.shape else -1
+                raise Fail(f"sub2ind:{case['order']}", f"{dt} subscripts, shape {shp}: row {subs64[bad].tolist()} -> {lin[bad] if bad >= 0 else lin} expected {exp[bad] if bad >= 0 else exp}")
+            back = tt_ind2sub(shp, exp.copy(), order=case["order"])
+            if not np.array_equal(np.asarray(back).astype(np.int64), subs64):
+                raise Fail(f"ind2sub:{case['order']}", f"shape {shp}")
+            return
+        if case["kind"] == "rows":
+            A64 = rs.randint(0, 5, size=(7, 3))
+            B64 = np.vstack([A64[[4, 1]], rs.randint(0, 5, size=(4, 3))])
+            for a_dt, b_dt in ((dt, np.int64), (np.int64, dt), (dt, dt)):
+                A, B = A64.astype(a_dt), B64.astype(b_dt)
+                ref = [np.asarray(x) for x in (*tt_ismember_rows(A64, B64), tt_intersect_rows(A64, B64), tt_setdiff_rows(A64, B64))]
+                got = [np.asarray(x) for x in (*tt_ismember_rows(A, B), tt_intersect_rows(A, B), tt_setdiff_rows(A, B))]
+                for nm, g, r in zip(("ismember-matched", "ismember-location", "intersect", "setdiff"), got, ref):
+                    if not np.array_equal(g, r):
+                        raise Fail(f"{nm}", f"rows of type {np.dtype(a_dt)} against {np.dtype(b_dt)}: {g.tolist()} != {r.tolist()}")
+            return
+        shp = tuple(case["shape"])
+        ncell = int(np.prod(shp))
+        n = max(2, ncell // 3)
+        lin = rs.choice(ncell, size=n, replace=False)
+        subs64 = np.array(np.unravel_index(lin, shp)).T
+        vals = rs.choice([1.0, 2.0, -1.0, 3.0], size=(n, 1))
+        A = ttb.sptensor(subs64.astype(dt), vals.copy(), shp)
+        R = ttb.sptensor(subs64.copy(), vals.copy(), shp)
+
+        def den(X, what):
+            if isinstance(X, ttb.sptensor):
+                out = np.zeros(X.shape)
+                if X.subs.size:
+                    if np.unique(X.subs, axis=0).shape[0] != X.subs.shape[0]:
+                        raise Fail(f"repeated-subscripts:{what}", f"{dt} subscripts, shape {shp}: {X.subs.tolist()}")
+                    out[tuple(np.asarray(X.subs).astype(np.int64).T)] = X.vals.ravel()
+                return out
+            return np.asarray(X.data if hasattr(X, "data") else X, dtype=float)
+        if case["kind"] == "reshape":
+            tgt = tuple(case["target"])
+            got, ref = A.reshape(tgt), R.reshape(tgt)
+            dense = np.zeros(shp)
+            dense[tuple(subs64.T)] = vals.ravel()
+            exp = dense.reshape(tgt, order="F")
+            if got.shape != tgt or not np.array_equal(den(got, "reshape"), exp):
+                raise Fail("sparse-reshape", f"{dt} subscripts, {shp} -> {tgt}: differs from the dense reshape")
+            if not np.array_equal(den(got.reshape(shp), "reshape-back"), dense):
+                raise Fail("sparse-reshape-roundtrip", f"{dt} subscripts, {shp} -> {tgt} -> {shp}")
+            return
+        lin2 = rs.choice(ncell, size=n, replace=False)
+        sb = np.array(np.unravel_index(lin2, shp)).T
+        sb[0] = subs64[0]
+        _, first = np.unique(sb, axis=0, return_index=True)
+        sb = sb[np.sort(first)]
+        B = ttb.sptensor(sb, rs.choice([1.0, 2.0], size=(sb.shape[0], 1)), shp)
+        D = ttb.tensor(den(R, "ref") + 1.0)
+        ops = [("A != 1", lambda X: X != 1), ("A == 1", lambda X: X == 1), ("A == 0", lambda X: X == 0), ("A < 2", lambda X: X < 2),
+               ("A >= 0", lambda X: X >= 0), ("A != B", lambda X: X != B), ("B != A", lambda X: B != X), ("A == B", lambda X: X == B),
+               ("A * B", lambda X: X * B), ("A + B", lambda X: X + B), ("A - B", lambda X: X - B), ("A < B", lambda X: X < B),
+               ("A >= B", lambda X: X >= B), ("A & B", lambda X: X.logical_and(B)), ("A | B", lambda X: X.logical_or(B)),
+               ("A ^ B", lambda X: X.logical_xor(B)), ("not A", lambda X: X.logical_not()), ("A != D", lambda X: X != D),
+               ("A[subs]", lambda X: X[sb]), ("full", lambda X: X.full()), ("A == A64", lambda X: X == R)]
+        for nm, op in ops:
+            with np.errstate(all="ignore"):
+                g, r = den(op(A), nm), den(op(R), nm)
+            if g.shape != r.shape or not np.array_equal(g, r, equal_nan=True):
+                raise Fail(f"sparse-op:{nm}", f"{dt} subscripts give a different result than int64 subscripts, shape {shp}")
